@@ -530,6 +530,8 @@ def run(ctx):
     from .common import download_recycles_rule
     download_recycles_rule(ctx, 'C12-D7')
     _no_handle_after_give_back(ctx, bs)
+    from .common import delegating_wrapper_rule
+    delegating_wrapper_rule(ctx, 'C12-D7')
     rc = repo.func(bs.qual + '.recycle')
     okr = False
     for lp in walk_no_nested(rc.node):
